@@ -100,12 +100,22 @@ func heapKey(tkey string, path string) string {
 }
 
 func (ex *Exec) heapArr(st *State, key string, leafSort string) string {
+	return ex.heapArrSh(st, key, leafSort, nil)
+}
+
+func (ex *Exec) heapArrSh(st *State, key string, leafSort string, sh *Shape) string {
 	srt := "(Array Int " + leafSort + ")"
 	ex.eng.regHeap(key, srt)
 	if t, ok := st.heap[key]; ok {
 		return t
 	}
-	return ex.eng.smt.named("H"+st.epoch+"_"+key, srt)
+	name := ex.eng.smt.named("H"+st.epoch+"_"+key, srt)
+	if st.epoch == "0" && sh != nil && !ex.eng.refAxDone[name] {
+		ex.eng.refAxDone[name] = true
+		lifted := &Shape{T: sh.T, Leaf: srt, Elem: sh, Idx: "Int", Kind: "lift"}
+		ex.refArrayAxiom(name, lifted)
+	}
+	return name
 }
 
 // readLoc reads the value stored at a location.
@@ -127,7 +137,7 @@ func (ex *Exec) readLoc(st *State, l *Loc) *Val {
 
 func (ex *Exec) heapRead(st *State, tkey, ref, prefix string, sh *Shape, t types.Type) *Val {
 	if sh.IsLeaf() {
-		arr := ex.heapArr(st, heapKey(tkey, prefix), sh.Leaf)
+		arr := ex.heapArrSh(st, heapKey(tkey, prefix), sh.Leaf, sh)
 		term := "(select " + arr + " " + ref + ")"
 		return ex.loaded(&Val{Sh: sh, T: sh.T, S: term})
 	}
@@ -171,7 +181,7 @@ func (ex *Exec) loaded(v *Val) *Val {
 	if isRefType(t) {
 		name := ex.eng.smt.fresh("ldp", "Int")
 		ex.eng.smt.syms[name].Def = v.S
-		ex.eng.smt.addAx(name, "(and (<= 0 "+name+") (< "+name+" "+ex.eng.alloc0()+"))")
+		ex.eng.smt.addAx(name, "(<= 0 "+name+")")
 		return &Val{Sh: v.Sh, T: v.T, S: name}
 	}
 	return v
@@ -187,6 +197,8 @@ func isRefType(t types.Type) bool {
 	case *types.Interface:
 		_ = u
 		return true
+	case *types.Basic:
+		return u.Kind() == types.UnsafePointer
 	}
 	return false
 }
@@ -289,7 +301,9 @@ func (ex *Exec) readVar(st *State, obj types.Object) *Val {
 			return v
 		}
 	}
+	ex.entryFresh++
 	v := ex.freshVal(obj.Type(), obj.Name())
+	ex.entryFresh--
 	ex.init[obj] = v
 	ex.inputs = append(ex.inputs, obj)
 	return v
@@ -301,10 +315,39 @@ func (ex *Exec) freshLeaf(sh *Shape, hint string) string {
 		if lo, hi, ok := intRange(sh.T); ok {
 			ex.eng.smt.addAx(name, "(and (<= "+lo+" "+name+") (<= "+name+" "+hi+"))")
 		} else if isRefType(sh.T) && sh.Leaf == "Int" {
-			ex.eng.smt.addAx(name, "(and (<= 0 "+name+") (< "+name+" "+ex.eng.alloc0()+"))")
+			if ex.entryFresh > 0 {
+				// an entry value: it cannot be an object this function allocates later
+				ex.eng.smt.addAx(name, "(and (<= 0 "+name+") (< "+name+" "+ex.eng.alloc0()+"))")
+			} else {
+				ex.eng.smt.addAx(name, "(<= 0 "+name+")")
+			}
 		}
+	} else if sh.Kind == "lift" && ex.entryFresh > 0 {
+		ex.refArrayAxiom(name, sh)
 	}
 	return name
+}
+
+// refArrayAxiom: every reference stored in an entry-state array predates the
+// function's own allocations.
+func (ex *Exec) refArrayAxiom(name string, sh *Shape) {
+	var idx []string
+	cur := sh
+	for cur != nil && cur.Kind == "lift" && cur.IsLeaf() {
+		idx = append(idx, cur.Idx)
+		cur = cur.Elem
+	}
+	if cur == nil || !cur.IsLeaf() || cur.Leaf != "Int" || cur.T == nil || !isRefType(cur.T) {
+		return
+	}
+	term := name
+	var bs []string
+	for i, s := range idx {
+		v := fmt.Sprintf("r%d", i)
+		bs = append(bs, "("+v+" "+s+")")
+		term = "(select " + term + " " + v + ")"
+	}
+	ex.eng.smt.addAx(name, "(forall ("+strings.Join(bs, " ")+") (! (< "+term+" "+ex.eng.alloc0()+") :pattern ("+term+")))")
 }
 
 func (ex *Exec) freshValSh(sh *Shape, hint string) *Val {
@@ -436,7 +479,7 @@ func (ex *Exec) anyEq(a, b *Val) string {
 	pay := func(tag int, f string) string {
 		return implies(eq(ta, fmt.Sprint(tag)), eq(a.kid(f).S, b.kid(f).S))
 	}
-	return and(eq(ta, tb), pay(tagInt64, "i"), pay(tagInt, "i"), pay(tagUint64, "i"), pay(tagFloat, "r"), pay(tagF32, "r"), pay(tagString, "s"), pay(tagBool, "b"), pay(tagOther, "ref"))
+	return and(eq(ta, tb), pay(tagInt64, "i"), pay(tagInt, "i"), pay(tagUint64, "i"), pay(tagFloat, "r"), pay(tagF32, "r"), pay(tagString, "s"), pay(tagBool, "b"), pay(tagOther, "ref"), pay(tagOther, "ty"), pay(tagOther, "i"), pay(tagOther, "s"))
 }
 
 func (ex *Exec) def(hint, sort, term string) string {
